@@ -271,7 +271,7 @@ class Env:
             self.fails += 1
 
     async def _send_remove(self, m):
-        c, loop = self.c, self.loop
+        loop = self.loop
         fr = {'t': loop.time(), 'n': self.tick(), 'kind': 'R', 'user': m.username, 'epoch': self.epoch, 'closing': not self.connected}
         fail = not self.connected
         if self.connected and self.rm_fail:
@@ -781,12 +781,20 @@ META = {
                       'server behaviour per AddUser attempt: answer / silence / write error (answer exists/not exists is symbolic)',
                       'RemoveUser write error (faults jobs)', 'finished/unfinished per transfer and cycle (cycles harness)'],
     'bounds': {
-        'quick': {'calls': '1..3 for one user at every loop step; 4 with coarse prefix; 5 as burst/sequential; 3 for two users',
-                  'disconnects': '<= 1, sequences <= 3', 'failed_attempts': '<= 1 per scenario (2 in faults jobs), then the server confirms',
-                  'answer_delay': '0.25 s', 'transfer_cycles': 2},
-        'thorough': {'calls': '1..4 for one user at every loop step; 5..6 with coarse prefix; <= 8 as burst/sequential; 3..4 for two users',
-                     'disconnects': '<= 1, sequences <= 4', 'failed_attempts': '<= 2 (3 in faults jobs)', 'answer_delay': '0.25 s',
-                     'transfer_cycles': 3}},
+        'quick': {'one_user_all_fine': 'every sequence of 1..3 calls, every call after the first at every loop step / timer instant',
+                  'one_user_coarse_prefix': '4 calls: 3 fixed coarse prefixes + last call fine; 5 calls as burst and strictly sequential',
+                  'disconnect': 'one disconnect anywhere in sequences <= 3 (all fine); after a burst of 3 calls (disconnect fine)',
+                  'two_users': '3 calls, second now/all-done, third fine',
+                  'failed_attempts': '<= 1 per scenario (2 in faults jobs), then the server confirms',
+                  'faults': 'RemoveUser write errors, suspending listener: 2 calls fine, 3 calls coarse+fine',
+                  'answer_delay': '0.25 s', 'transfer_cycles': '2 cycles x 3 transfers x 2 users, 2 direct calls'},
+        'thorough': {'one_user_all_fine': 'every sequence of 1..4 calls (<= 3 calls with up to 2 failed attempts)',
+                     'one_user_coarse_prefix': '5 calls [now, now|settled, coarse, coarse, fine]; 6 calls: 4 fixed prefixes + fine; 5..8 calls burst / sequential',
+                     'disconnect': 'one disconnect anywhere in sequences <= 4, all fine',
+                     'two_users': '3 calls all fine; 4 calls [now, now|all-done, coarse, fine]',
+                     'failed_attempts': '<= 1 (2 for <= 3 calls, 3 in faults jobs), then the server confirms',
+                     'faults': 'RemoveUser write errors, suspending listener: 3 calls all fine',
+                     'answer_delay': '0.25 s', 'transfer_cycles': '3 cycles, 3 direct calls; 2 cycles with coarse timing'}},
     'outside': ['calls with an empty flag (TrackingFlag(0) is the worker\'s internal retry marker; the public API default is REQUESTED)',
                 'calls issued while the close of the server connection is being dispatched (the disconnect is atomic in the harness)',
                 'answers that arrive later than the 10 s wait, reordered or duplicated answers',
@@ -871,13 +879,16 @@ def jobs(tier):
         out.append(_job('faults', s, ['now', C, F] if quick else ['now', F, F], rm_fail=True))
         out.append(_job('faults', s, ['now', C, F] if quick else ['now', F, F], slow=True))
     # G: the transfer manager as the source of the TRANSFER reason
-    for calls in (['t0', 'u0'], ['t1', 'u1']) if quick else (['t0', 'u0', 't0'], ['t1', 'u1', 't0']):
-        out.append({'harness': 'cycles', 'fn': h_cycles,
-                    'params': {'ncycles': 2 if quick else 3, 'call_timing': 'all' if quick else C, 'cycle_timing': 'all',
-                               'calls': calls, 'max_fail': 0},
-                    'requires': ['cycle', 'settled', 'end']})
-    if not quick:
-        out.append({'harness': 'cycles', 'fn': h_cycles,
-                    'params': {'ncycles': 2, 'call_timing': C, 'cycle_timing': C, 'calls': ['t0', 'u0'], 'max_fail': 1},
-                    'requires': ['cycle', 'settled', 'end']})
+
+    def cyc(**kw):
+        return {'harness': 'cycles', 'fn': h_cycles, 'params': kw, 'requires': ['cycle', 'settled', 'end']}
+    if quick:
+        for calls in (['t0', 'u0'], ['t1', 'u1']):
+            out.append(cyc(ncycles=2, call_timing='all', cycle_timing='all', calls=calls, max_fail=0))
+    else:
+        for calls in (['t0', 'u0', 't0'], ['t1', 'u1', 't0']):
+            out.append(cyc(ncycles=3, call_timing='all', cycle_timing='all', calls=calls, max_fail=0))
+        out.append(cyc(ncycles=2, call_timing=C, cycle_timing=C, calls=['t0', 'u0'], max_fail=0))
+        out.append(cyc(ncycles=2, call_timing='all', cycle_timing='all', calls=['t0', 'u0'], max_fail=1))
+        out.append(cyc(ncycles=2, call_timing='now', cycle_timing='now', calls=['t1', 'u0'], max_fail=1))
     return out
